@@ -17,4 +17,5 @@ def run(ctx):
     out.append(T.output_path_rule(ctx.syn, "C11"))
     out.append(T.export_test_rule(ctx.syn, "C11"))
     out.append(T.deps_emission_rule(ctx.syn, ctx.mir("default")["ts_rs_macros"], "C11", "C11.R6"))
+    out.append(T.generics_visit_rule(ctx.syn, "C11", "C11.R7"))
     return out
